@@ -144,6 +144,16 @@ def gen_docs(ctx, total):
             for comments in (0.0, rng.choice([0.15, 0.4])):
                 docs.append(Doc("fault", render(toks, rng, comments, rng.choice(["\n", "\n", "\r\n"])), None,
                                 meta=inj.__name__, prog=p, pending=("sem", exps)))
+    # single faults whose (missing) diagnosis is a listed known finding
+    for fid, inj in sorted(splfaults.KNOWN_FINDING_INJECTORS.items()):
+        for _ in range(max(4, total // 300)):
+            prog = semtest.well_typed(rng, ndecls=rng.randrange(1, 4))
+            r = splfaults.inject_full(prog, rng, inj)
+            if r is None:
+                continue
+            p, exps = r
+            docs.append(Doc("fault-known", render(splgen.flatten(p), rng, rng.choice([0.0, 0.2])), None,
+                            meta=fid, prog=p, pending=("sem", exps)))
     for _ in range(int(total * 0.07)):
         prog = semtest.well_typed(rng, ndecls=rng.randrange(1, 4))
         r = splfaults.missing_token(prog, rng)
@@ -354,6 +364,8 @@ def run(ctx):
 
     # ---------------- oracle on the implementation alone ----------------
     known = common.load_known_findings("C03")
+    known_ids = set(e.get("id") for e in known)
+    known_hits, known_gone = collections.defaultdict(list), collections.Counter()
     fails = collections.defaultdict(list)        # part -> [(index, why)]
     for i, d in enumerate(docs):
         errs = impl_errs[i]
@@ -367,8 +379,13 @@ def run(ctx):
                 break
         if d.expect is not None:
             why = check_expect(d, errs)
-            if why is not None:
+            if why is not None and d.stream == "fault-known" and d.meta in known_ids and errs == []:
+                # the listed finding: the one prescribed diagnostic is missing, nothing else is reported
+                known_hits[d.meta].append(i)
+            elif why is not None:
                 fails["a" if d.stream == "valid" else "corpus" if d.stream == "corpus" else "b"].append((i, why))
+            elif d.stream == "fault-known":
+                known_gone[d.meta] += 1
     reported = 0
     parts = {"a": "a: a well-typed program gets a diagnostic", "b": "b: a single-fault variant does not get exactly the prescribed diagnostic(s) on the culprit",
              "c": "c: a published range is outside the document or splits a character", "corpus": "corpus: a repaired defect is back",
@@ -431,7 +448,11 @@ def run(ctx):
         elif judge is None or not proved:
             ctx.violation(dict(kind="proof", property="C03", detail=getattr(ctx, "proof_failure", (jlog or "")[-2000:])), no_input=True)
     for e in known:
-        ctx.known(e.get("id", "") + " " + e.get("class", ""))
+        hits = known_hits.get(e.get("id"), [])
+        if hits:
+            i = min(hits, key=lambda i: len(docs[i].text))
+            ctx.known("%s %s: %d of %d probes, e.g. %r" % (e.get("id", ""), e.get("class", ""), len(hits),
+                                                            len(hits) + known_gone[e.get("id")], docs[i].text[:200]))
 
     # ---------------- evidence ----------------
     per = collections.Counter(d.stream for d in docs)
@@ -473,24 +494,29 @@ def run(ctx):
         "implementation_diagnostics_by_kind": dict(sorted(hist.items())),
         "corpus_documents": ncorpus,
         "oracle_failures": {k: len(v) for k, v in fails.items()},
+        "known_finding_probes": {k: dict(still_failing=len(v), passing=known_gone[k]) for k, v in known_hits.items()},
         "traces_validated_against_impl": len(docs) if judge else 0,
         "kernel_judge_cases": nk,
         "correspondence_mismatches": len(mism) + len(kfail),
         "lsp_documents_compared": lsp_compared, "lsp_mismatches": lsp_bad, "lsp_no_notification": lsp_mute,
         "samples": samples,
         "explanation":
-            "PROVED (Props/C03.v, 42 theorems, closed, for ALL syntax trees and symbol tables, no parser involved): the analysis algorithm "
+            "PROVED (Props/C03.v, 45 theorems, closed, for ALL syntax trees and symbol tables, no parser involved): the analysis algorithm "
             "(models of table::build, table::analyze, ast::error_container, AnalyzedSource::errors) against a declarative static semantics of SPL "
             "(Spec/Typing.v): no false positive for declarations (C03_build_sound, with the table mapping every declared name to its own "
             "declaration: C03_build_table) and for bodies (C03_analyze_sound); no false negative for bodies (C03_analyze_complete; "
             "C03_analyze_exact: analyze attaches nothing IFF all bodies are well-typed, for well-formed declarations); per rule, a node violating "
             "exactly one premise gets exactly that rule's message at the node the rule names with that node's range (18 semantic + 10 "
-            "declaration rules, C03_rule_*); localisation: errors() is exactly the attached errors, each shifted by the sum of the offsets of the "
+            "declaration rules, C03_rule_*); exactly one fault => exactly one diagnostic: a statement that is well-typed except for one "
+            "violated premise at ANY depth (Spec/Typing.v fault_stmt: 17 semantic kinds + unary minus) gets exactly the prescribed error, "
+            "also for whole trees (C03_single_fault_stmt, C03_single_fault_program); localisation: errors() is exactly the attached errors, each shifted by the sum of the offsets of the "
             "enclosing References (C03_localisation) and mapped to start-of-first .. end-of-last token (C03_published_range); errors() cannot "
             "fail if the collected ranges lie in the token vector (C03_ranges_inside, hypothesis explicit).  With C04's round-trip theorem: every "
             "TEXT that lexes to the tokens of a well-typed abstract program (comments in any gap) gets no diagnostic (C03_no_false_positive; the "
-            "lexer's output is a hypothesis).  NOT PROVED: C03_full_statement - the single-fault half for whole rendered programs (single-fault "
-            "variants and culprit token ranges are defined in tools/splfaults.py, not in Coq).  VALIDATED by this run: the models agree with the "
+            "lexer's output is a hypothesis), and every text that lexes to a program with exactly one semantic fault in a body gets exactly that one "
+            "diagnostic with the byte range of its tokens (C03_single_semantic_fault).  NOT PROVED: C03_full_statement - program-level "
+            "single-fault statements for the 10 declaration rules and the missing-token faults, the identification of node ranges with the "
+            "culprit's tokens for faulty programs, and the lexer side (text of a layout -> tokens); these are validated below.  VALIDATED by this run: the models agree with the "
             "implementation on every generated document (extracted judge) and on a sample in the kernel; the oracle checks on the "
             "implementation itself that well-typed programs get no diagnostic, each single-fault variant gets exactly the prescribed "
             "diagnostic(s) with the byte range of the culprit (leading comments of statement/expression nodes included, names bare), all "
